@@ -2,6 +2,7 @@
    A case carries the inputs AND the implementation's outputs; agree_* compares inside Coq.
    The assorter is a black box: the harness evaluates the implementation's `assort` on every record and passes the
    table; a card's c_votes is its index in the table. *)
+From Coq Require Export Floats.
 From SV Require Export Compare.
 Open Scope Q_scope.
 
@@ -47,58 +48,84 @@ Definition show_pool (c : pool_case) :=
   let tps := match p_arg c with Some t => t | None => pc end in
   (pc, map c_contests (fst (add_pool_contests (p_cvrs c) tps)), snd (add_pool_contests (p_cvrs c) tps)).
 
+(* ---- numbers from the implementation are IEEE doubles: written as primitive float literals (exact, hex) and
+        converted exactly here; only the harness transport uses them, no theorem does ---- *)
+Definition fx (f : float) : Xq :=
+  match Prim2SF f with
+  | S754_zero _ => Fin 0
+  | S754_infinity s => if s then NInf else PInf
+  | S754_nan => NaN
+  | S754_finite s m e =>
+      let v := if (0 <=? e)%Z then inject_Z (Zpos m * 2 ^ e) else Qmake (Zpos m) (Z.to_pos (2 ^ (- e))) in
+      Fin (Qred (if s then - v else v))
+  end.
+Definition fq (f : float) : Q := match fx f with Fin q => q | _ => 0 end.
+Definition fres (r : res float) : res Xq := match r with Ok f => Ok (fx f) | Raise e => Raise e end.
+Definition fdict (d : list (Z * float)) : list (Z * Xq) := map (fun kv => (fst kv, fx (snd kv))) d.
+Definition dummy_card : card := mkcard false false 0 [] 0 0.
+Definition getc (objs : list card) (i : nat) : card := nth i objs dummy_card.
+
 (* ---- one assertion: pool means, margin, overstatement assorter on pairs, mvrs_to_data ---- *)
 Record cmp_case := mkcmp {
-  k_tab : list Q; k_cid : Z; k_ua : Q; k_type : atype;
-  k_cvrs : list card;                    (* the list given to set_tally_pool_means / set_margin_from_cvrs *)
+  k_tab : list float;                    (* assort(record) for every record, by handle *)
+  k_cid : Z; k_ua : float; k_type : atype;
+  k_objs : list card;                    (* the CVR list followed by the MVRs; a record's handle is its position *)
+  k_ncvr : nat;                          (* the first k_ncvr records are the list given to set_tally_pool_means / set_margin_from_cvrs *)
   k_means_mode : Z;                      (* 0: tally_pool_means never set; 1: tally_pools=None; 2: tally_pools=k_means_arg *)
   k_means_arg : list Z; k_means_style : bool;
-  k_impl_means : res (list (Z * Xq));    (* Assorter.tally_pool_means afterwards, or the exception *)
+  k_impl_means : res (list (Z * float)); (* Assorter.tally_pool_means afterwards, or the exception *)
   k_s_style : bool;                      (* audit stratum use_style (set_margin_from_cvrs) *)
   k_c_style : bool;                      (* contest.use_style (mvrs_to_data) *)
-  k_margin_given : option Xq;            (* None: set_margin_from_cvrs; Some: margin set some other way *)
-  k_impl_margin : Xq; k_impl_u0 : Xq;    (* Assertion.margin, Assertion.test.u afterwards *)
-  k_pairs : list (card * card);          (* (mvr, cvr) *)
-  k_impl_B_on : list (res Xq); k_impl_B_off : list (res Xq);   (* overstatement_assorter with use_style True / False *)
-  k_mvrs : list card; k_scvrs : list card; k_thr : Q; k_use_all : bool;
-  k_impl_data : res (list Xq * Xq)       (* mvrs_to_data *)
+  k_margin_given : option float;         (* None: set_margin_from_cvrs; Some: margin set some other way *)
+  k_impl_margin : float; k_impl_u0 : float;    (* Assertion.margin, Assertion.test.u afterwards *)
+  k_pairs : list (nat * nat);            (* (mvr, cvr) handles *)
+  k_impl_B_on : list (res float); k_impl_B_off : list (res float);   (* overstatement_assorter, use_style True / False *)
+  k_mvrs : list nat; k_scvrs : list nat; k_thr : Q; k_use_all : bool;
+  k_impl_data : res (list float * float) (* mvrs_to_data *)
 }.
-Definition model_means (c : cmp_case) : res (list (Z * Xq)) :=
-  let A := A_tab (k_tab c) in
-  if (k_means_mode c =? 0)%Z then Ok []
-  else set_tally_pool_means A (k_cid c) (k_cvrs c)
-         (if (k_means_mode c =? 1)%Z then None else Some (k_means_arg c)) (k_means_style c).
-Definition model_means_state (c : cmp_case) : option (list (Z * Xq)) :=
-  if (k_means_mode c =? 0)%Z then None
-  else match model_means c with Ok m => Some m | Raise _ => None end.   (* a raise leaves the attribute at None *)
-Definition model_margin (c : cmp_case) : Xq * Xq :=
-  match k_margin_given c with
-  | Some m => (m, k_impl_u0 c)
-  | None => set_margin_from_cvrs (A_tab (k_tab c)) (k_cid c) (k_type c) (k_ua c) (k_cvrs c) (k_s_style c)
-  end.
-Definition model_B (c : cmp_case) (style : bool) : list (res Xq) :=
-  map (fun p => overstatement_assorter (A_tab (k_tab c)) (k_cid c) (model_means_state c) (fst (model_margin c))
-                                       (k_ua c) (fst p) (snd p) style) (k_pairs c).
-Definition model_asn (c : cmp_case) : asn :=
-  mkasn (A_tab (k_tab c)) (k_cid c) (k_c_style c) (k_type c) (k_thr c) (fst (model_margin c)) (k_ua c)
-        (model_means_state c) (snd (model_margin c)).
-Definition model_data (c : cmp_case) := mvrs_to_data (model_asn c) (k_mvrs c) (k_scvrs c) (k_use_all c).
-Definition data_close (a b : res (list Xq * Xq)) : bool :=
+Section Cmp.
+  Variable c : cmp_case.
+  Let tabq := map fq (k_tab c).
+  Let A := A_tab tabq.
+  Let cvrs := firstn (k_ncvr c) (k_objs c).
+  Let ua := fq (k_ua c).
+  Definition model_means : res (list (Z * Xq)) :=
+    if (k_means_mode c =? 0)%Z then Ok []
+    else set_tally_pool_means A (k_cid c) cvrs
+           (if (k_means_mode c =? 1)%Z then None else Some (k_means_arg c)) (k_means_style c).
+  Definition model_means_state : option (list (Z * Xq)) :=
+    if (k_means_mode c =? 0)%Z then None
+    else match model_means with Ok m => Some m | Raise _ => None end.   (* a raise leaves the attribute at None *)
+  Definition model_margin : Xq * Xq :=
+    match k_margin_given c with
+    | Some m => (fx m, fx (k_impl_u0 c))
+    | None => set_margin_from_cvrs A (k_cid c) (k_type c) ua cvrs (k_s_style c)
+    end.
+  Definition model_B (style : bool) : list (res Xq) :=
+    let ms := model_means_state in let mg := fst model_margin in
+    map (fun p => overstatement_assorter A (k_cid c) ms mg ua (getc (k_objs c) (fst p)) (getc (k_objs c) (snd p)) style)
+        (k_pairs c).
+  Definition model_asn : asn :=
+    mkasn A (k_cid c) (k_c_style c) (k_type c) (k_thr c) (fst model_margin) ua model_means_state (snd model_margin).
+  Definition model_data :=
+    mvrs_to_data model_asn (map (getc (k_objs c)) (k_mvrs c)) (map (getc (k_objs c)) (k_scvrs c)) (k_use_all c).
+End Cmp.
+Definition data_close (a : res (list Xq * Xq)) (b : res (list float * float)) : bool :=
   match a, b with
-  | Ok (d, u), Ok (d', u') => all2 close_x d d' && close_x u u'
+  | Ok (d, u), Ok (d', u') => all2 close_x d (map fx d') && close_x u (fx u')
   | Raise e, Raise f => err_eqb e f
   | _, _ => false
   end.
 Definition agree_cmp (c : cmp_case) : bool :=
   match model_means c, k_impl_means c with
-  | Ok m, Ok i => dict_agree close_x m i
+  | Ok m, Ok i => dict_agree close_x m (fdict i)
   | Raise e, Raise f => err_eqb e f
   | _, _ => false
   end
-  && close_x (fst (model_margin c)) (k_impl_margin c)
-  && close_x (snd (model_margin c)) (k_impl_u0 c)
-  && all2 res_close (model_B c true) (k_impl_B_on c)
-  && all2 res_close (model_B c false) (k_impl_B_off c)
+  && close_x (fst (model_margin c)) (fx (k_impl_margin c))
+  && close_x (snd (model_margin c)) (fx (k_impl_u0 c))
+  && all2 res_close (model_B c true) (map fres (k_impl_B_on c))
+  && all2 res_close (model_B c false) (map fres (k_impl_B_off c))
   && data_close (model_data c) (k_impl_data c).
 Definition show_cmp (c : cmp_case) :=
   (model_means c, model_margin c, model_B c true, model_B c false, model_data c).
@@ -106,24 +133,27 @@ Definition show_cmp (c : cmp_case) :=
 (* ---- several assertions sharing one sample: set_all_margins_from_cvrs (optional), re-assigned margins (optional),
         set_p_values ---- *)
 Record spv_asn := mkspv_asn {
-  s_tab : list Q; s_cid : Z; s_style : bool; s_type : atype; s_thr : Q;
-  s_margin : Xq;                         (* margin before the optional set_all_margins_from_cvrs *)
-  s_ua : Q; s_means : option (list (Z * Xq));
-  s_u_before : Xq;                       (* test.u before anything happens *)
-  s_override : option Xq                 (* margin assigned after set_all_margins_from_cvrs (tally / direct) *)
+  s_tab : list float; s_cid : Z; s_style : bool; s_type : atype; s_thr : Q;
+  s_margin : float;                      (* margin before the optional set_all_margins_from_cvrs *)
+  s_ua : float; s_means : option (list (Z * float));
+  s_u_before : float;                    (* test.u before anything happens *)
+  s_override : option float              (* margin assigned after set_all_margins_from_cvrs (tally / direct) *)
 }.
 Record spv_case := mkspv {
+  v_objs : list card;
   v_asns : list spv_asn;
-  v_setall : option (list card * bool);  (* Some (cvr_list, stratum use_style): set_all_margins_from_cvrs is called *)
-  v_impl_setall : list (Xq * Xq) * Xq;   (* (margin, test.u) of every assertion afterwards, and min_margin *)
-  v_mvrs : list card; v_cvrs : list card;
-  v_impl : res (list (Xq * list Xq * Xq))   (* per assertion: u held by the test when test() ran, the data, test.u at the end *)
+  v_setall : option (nat * bool);        (* Some (k, stratum use_style): set_all_margins_from_cvrs on the first k records *)
+  v_impl_setall : list (float * float) * float;   (* (margin, test.u) of every assertion afterwards, and min_margin *)
+  v_mvrs : list nat; v_cvrs : list nat;
+  v_impl : res (list (float * list float * float))  (* per assertion: u held by the test when test() ran, the data, test.u at the end *)
 }.
 Definition to_asn (s : spv_asn) : asn :=
-  mkasn (A_tab (s_tab s)) (s_cid s) (s_style s) (s_type s) (s_thr s) (s_margin s) (s_ua s) (s_means s) (s_u_before s).
+  let tabq := map fq (s_tab s) in
+  mkasn (A_tab tabq) (s_cid s) (s_style s) (s_type s) (s_thr s) (fx (s_margin s)) (fq (s_ua s))
+        (match s_means s with Some d => Some (fdict d) | None => None end) (fx (s_u_before s)).
 Definition override (a : asn) (s : spv_asn) : asn :=
   match s_override s with
-  | Some m => mkasn (a_A a) (a_cid a) (a_style a) (a_type a) (a_thr a) m (a_ua a) (a_means a) (a_test_u a)
+  | Some m => mkasn (a_A a) (a_cid a) (a_style a) (a_type a) (a_thr a) (fx m) (a_ua a) (a_means a) (a_test_u a)
   | None => a
   end.
 Fixpoint map2 {X Y Z'} (f : X -> Y -> Z') (l : list X) (m : list Y) : list Z' :=
@@ -131,23 +161,26 @@ Fixpoint map2 {X Y Z'} (f : X -> Y -> Z') (l : list X) (m : list Y) : list Z' :=
 Definition spv_stage1 (c : spv_case) : list asn * Xq :=
   let a0 := map to_asn (v_asns c) in
   match v_setall c with
-  | Some (pop, st) => set_all_margins_from_cvrs a0 pop st
-  | None => (a0, snd (v_impl_setall c))
+  | Some (k, st) => set_all_margins_from_cvrs a0 (firstn k (v_objs c)) st
+  | None => (a0, fx (snd (v_impl_setall c)))
   end.
 Definition spv_run (c : spv_case) :=
-  set_p_values (map2 override (fst (spv_stage1 c)) (v_asns c)) (v_mvrs c) (v_cvrs c).
+  set_p_values (map2 override (fst (spv_stage1 c)) (v_asns c))
+               (map (getc (v_objs c)) (v_mvrs c)) (map (getc (v_objs c)) (v_cvrs c)).
 Definition agree_spv (c : spv_case) : bool :=
   let s1 := spv_stage1 c in
   match v_setall c with
-  | Some _ => all2 (fun a mu => close_x (a_margin a) (fst mu) && close_x (a_test_u a) (snd mu)) (fst s1) (fst (v_impl_setall c))
-              && close_x (snd s1) (snd (v_impl_setall c))
+  | Some _ => all2 (fun a mu => close_x (a_margin a) (fx (fst mu)) && close_x (a_test_u a) (fx (snd mu)))
+                   (fst s1) (fst (v_impl_setall c))
+              && close_x (snd s1) (fx (snd (v_impl_setall c)))
   | None => true
   end
   && match spv_run c, v_impl c with
      | Ok (asns', calls), Ok l =>
          all2 (fun ac i => match ac, i with
                            | (a', cl), (u_call, d, u_end) =>
-                               close_x (call_u cl) u_call && all2 close_x (call_d cl) d && close_x (a_test_u a') u_end
+                               close_x (call_u cl) (fx u_call) && all2 close_x (call_d cl) (map fx d)
+                               && close_x (a_test_u a') (fx u_end)
                            end) (combine asns' calls) l
          && Nat.eqb (length asns') (length calls)
      | Raise e, Raise f => err_eqb e f
